@@ -19,6 +19,18 @@ CLAIMED = {
          "petgraph / rustdoc analyses outside what Verus accepts (DESIGN §3/C02). The trait oracle, the component database accessors and "
          "the diagnostic builders are assumed stand-ins; the sink is observed through a ghost error count. No native replay."),
    design="§3/C02"),
+ "C03": dict(
+   text=("Partial claim — a sliver: the table the statement's three sentences start from, 'allowed invocations per lifecycle'. Verus "
+         "discharges, on the real text of the two lifecycle2invocations functions (declared inside _request_scoped_call_graph and "
+         "application_state_call_graph; hoisted mechanically): in a request-time call graph a singleton is never constructed (it is taken "
+         "as an input), a request-scoped component at most once, a transient once per use; in the application-state graph a singleton at "
+         "most once, a transient once per use, and the `unreachable!()` for request-scoped is discharged under the precondition that none "
+         "reaches that graph (which the C08 singleton rule enforces). A closed match over two enums: the proof is complete, not bounded."),
+   note=("NOT decided — and this is almost all of C03: everything about a RUNNING server (which instance an injection sees, sharing "
+         "between handler, middlewares, error handlers and observers, clones) is behaviour of the emitted program (DESIGN §1.3); what the "
+         "call-graph builder does with these numbers (NodeDeduplicator, request_scoped2built_at_stage_index, bind_next, the generated "
+         "ApplicationState::new) is petgraph / IndexSet code over ComponentDb outside what Verus accepts. No native replay."),
+   design="§3/C03"),
  "C04": dict(
    text=("Partial claim — a thin slice: the compile-time clause 'the registration in the nearest enclosing (nested) blueprint wins (within "
          "one blueprint, the latest registration), registrations of parents are inherited, registrations of sibling blueprints are "
